@@ -81,7 +81,7 @@ func codecRoundTrip(s string) string {
 func checkC14(c *harness.Check) {
 	mustAnchors(c)
 	clocks := []int{0, 1, 49, 99, 100, 101, 1<<31 - 1}
-	c.Rule = fmt.Sprintf("(a) every node of the BFS closures and of the castling/e.p./promotion families x half-move clocks %v x full-move numbers %v x both sides to move: the reference FEN decodes and re-encodes to the same string and Decode(Encode(position value)) is the identical struct/side/clocks; (b) every Move/TakeBack sequence to depth n through Engine.Reset/Move/TakeBack from fortress, castling, e.p., promotion and start roots with non-trivial clocks: Engine.Position() equals the reference game's FEN after every operation; (c) the engine set up on four positions x both sides to move x 19 half-move clocks x 15 full-move numbers (around every integer width): reports the FEN it was given, the standard FEN after one move, the given FEN after taking it back. distinct_nontrivial = distinct FEN strings round-tripped", clocks, clocks)
+	c.Rule = fmt.Sprintf("(a) every node of the BFS closures and of the castling/e.p./promotion families x half-move clocks %v x full-move numbers %v x both sides to move: the reference FEN decodes and re-encodes to the same string and Decode(Encode(position value)) is the identical struct/side/clocks; (b) every Move/TakeBack sequence to depth n through Engine.Reset/Move/TakeBack from fortress, castling, e.p., promotion and start roots with non-trivial clocks: Engine.Position() equals the reference game's FEN after every operation; (b') king/knight/rook sequences of up to 5-6 moves followed by 0..n take-backs on three roots, the FEN asked for only once before and once after; (c) the engine set up on four positions x both sides to move x 19 half-move clocks x 15 full-move numbers (around every integer width): reports the FEN it was given, the standard FEN after one move, the given FEN after taking it back. distinct_nontrivial = distinct FEN strings round-tripped", clocks, clocks)
 	visit := func(n *Node) {
 		for _, white := range []bool{true, false} {
 			q := *n.Ref
@@ -192,6 +192,86 @@ func checkC14(c *harness.Check) {
 		}
 		rec(j.depth)
 	})
+	// (b') the same games observed SPARSELY: the FEN is asked for once at the start and once at the
+	// end of a sequence of moves and take-backs, never in between (a report that is remembered and
+	// served again must still be the report of the game as it stands)
+	sparseRoots := []string{"k7/p7/P7/8/8/7p/7P/7K w - - 0 1", "r3k2r/8/8/8/8/8/8/R3K2R w KQkq - 12 30", corpus.Initial}
+	type sparseJob struct {
+		fen  string
+		path []string
+	}
+	var sjobs []sparseJob
+	for _, f := range sparseRoots {
+		g, err := ref.GameFromFEN(f)
+		if err != nil {
+			continue
+		}
+		filter := func(m ref.Move) bool {
+			return m.Piece == ref.K || m.Piece == ref.N || (m.Piece == ref.R && f != corpus.Initial)
+		}
+		var path []string
+		var gen func(d int)
+		gen = func(d int) {
+			if len(path) > 0 {
+				sjobs = append(sjobs, sparseJob{f, append([]string(nil), path...)})
+			}
+			if d == 0 {
+				return
+			}
+			n := 0
+			for _, rm := range g.Cur().Legal() {
+				if !filter(rm) {
+					continue
+				}
+				if n++; n > 3 {
+					break
+				}
+				g.Push(rm)
+				path = append(path, rm.String())
+				gen(d - 1)
+				path = path[:len(path)-1]
+				g.Pop()
+			}
+		}
+		gen(c.Pick(5, 6))
+	}
+	harness.Parallel(len(sjobs), func(i int) {
+		j := sjobs[i]
+		ctx := context.Background()
+		for back := 0; back <= len(j.path); back++ {
+			e := newPlainEngine(ctx)
+			if err := e.Reset(ctx, j.fen); err != nil {
+				return
+			}
+			g, _ := ref.GameFromFEN(j.fen)
+			_ = e.Position() // the one observation before the sequence
+			ok := true
+			for _, t := range j.path {
+				rm, found := g.Cur().FindMove(t)
+				if !found || e.Move(ctx, t) != nil {
+					ok = false
+					break
+				}
+				g.Push(rm)
+			}
+			for k := 0; ok && k < back; k++ {
+				if e.TakeBack(ctx) != nil {
+					ok = false
+					break
+				}
+				g.Pop()
+			}
+			if !ok {
+				continue
+			}
+			c.Evaluations.Add(1)
+			if got, want := e.Position(), g.FEN(); got != want {
+				ops := append(append([]string(nil), j.path...), fmt.Sprintf("takeback x%d", back))
+				c.Violation(cc.sig("C14/engine-sparse", j.fen+" "+strings.Join(ops, ",")), fmt.Sprintf("asked once before and once after %v from %s the engine reports %q, the standard FEN is %q", ops, j.fen, got, want), "note", nil)
+			}
+		}
+	})
+	c.SetExtra("sparsely_observed_sequences", len(sjobs))
 	// (c) the engine set up with every combination of clocks and both sides to move: it reports the
 	// FEN it was given, the standard FEN after one move, and the given FEN again after taking it back
 	var sets []string
